@@ -50,6 +50,18 @@ def _feed(data, entry, cont):
         for b in data:
             p.feed_byte(b)
         return list(p)
+    if entry in ('chunks', 'chunks3'):
+        p = mido.Parser()
+        n = len(data)
+        cuts = [n // 2] if entry == 'chunks' else [n // 3, 2 * n // 3]
+        out = []
+        prev = 0
+        conv = {'bytes': bytes, 'bytearray': bytearray, 'tuple': tuple, 'generator': iter}.get(cont, list)
+        for c in cuts + [n]:
+            p.feed(conv(data[prev:c]))
+            out.extend(p)
+            prev = c
+        return out
     if entry == 'get_message':
         p = mido.Parser()
         p.feed(arg)
@@ -173,7 +185,7 @@ def main(ctx):
     n = 1500 if ctx.tier == 'quick' else 40000
     strat = st.fixed_dictionaries({
         'data': S.byte_stream(max_chunks=40 if ctx.tier == 'quick' else 300),
-        'entry': st.sampled_from(['parse_all', 'Parser', 'feed', 'feed_byte', 'get_message']),
+        'entry': st.sampled_from(['parse_all', 'Parser', 'feed', 'feed_byte', 'get_message', 'chunks', 'chunks3']),
         'cont': st.sampled_from(['list', 'tuple', 'bytes', 'bytearray', 'generator']),
     })
     ctx.hyp(strat, n, label='streams')
